@@ -240,4 +240,149 @@ theorem Coh_top (S : Schema) (D g : Nat) (base : List FItem) (X : List Node) (to
         exact ⟨t, a, m, inner, by simp, (hlink nxt rfl).symm, hrec⟩
     · simp [throw, throwThe, MonadExceptOf.throw] at h
 
+/-! ### the top level: adding nodes and setting the match; opening a node -/
+
+/-- adding `from_array(Xraw)` at a coherent top level and setting the match to the state after `Xraw` -/
+theorem Coh_base_add {S : Schema} (hts : TextStableP S) (D g : Nat) (base : List FItem) (j : Nat) (top : FItem)
+    (q q' : Nat) (Xraw F : List Node) (hc : Coh S D g base j [top] F) (hq : top.st = some q)
+    (hrun : (S.dfa top.ty).run q (S.types Xraw) = some q') :
+    Coh S D g base j [⟨top.ty, some q'⟩] (fappend F (fromArray Xraw)) := by
+  obtain ⟨⟨⟨s, q0, h1, h2, h3⟩, h4⟩, _⟩ := hc
+  rw [hq] at h2
+  simp only [Option.some.injEq] at h2
+  subst h2
+  refine ⟨⟨⟨s, q', h1, rfl, ?_⟩, ?_⟩, trivial⟩
+  · simp only
+    unfold cohKids at h3 ⊢
+    by_cases hcnd : j ≤ g ∧ j < D
+    · rw [if_pos hcnd] at h3 ⊢
+      obtain ⟨t, a, m, k, tl, rfl⟩ := h4 hcnd.1 hcnd.2
+      obtain ⟨tl', e1, e2⟩ := fappend_cons_elem t a m k tl (fromArray Xraw)
+      rw [e1, e2]
+      simp only [List.drop_succ_cons, List.drop_zero] at h3 ⊢
+      apply run_fappend_some hts
+      rw [Dfa.run_append, h3]
+      exact run_fromArray_some hts _ _ _ _ hrun
+    · rw [if_neg hcnd] at h3 ⊢
+      apply run_fappend_some hts
+      rw [Dfa.run_append, h3]
+      exact run_fromArray_some hts _ _ _ _ hrun
+  · intro hg hd
+    obtain ⟨t, a, m, k, tl, rfl⟩ := h4 hg hd
+    obtain ⟨tl', e1, _⟩ := fappend_cons_elem t a m k tl (fromArray Xraw)
+    exact ⟨t, a, m, k, tl', e1⟩
+
+theorem fromArray_singleton_elem (t : TypeId) (a : Attrs) (m : Marks) (k : List Node) :
+    fromArray [.elem t a m k] = [.elem t a m k] := by
+  simp [fromArray, addNodes, addNode_elem]
+
+/-- opening a node without content above the ghost level -/
+theorem Coh_base_open {S : Schema} (hts : TextStableP S) (D g : Nat) (base : List FItem) (j : Nat) (top : FItem)
+    (q q' : Nat) (ty : TypeId) (a : Attrs) (F : List Node) (hc : Coh S D g base j [top] F) (hq : top.st = some q)
+    (hm : (S.dfa top.ty).matchType q ty = some q') (hg : g < j + 1) :
+    Coh S D g base j [⟨top.ty, some q'⟩, ⟨ty, some 0⟩] (fappend F [.elem ty a [] []]) := by
+  have h1 := Coh_base_add hts D g base j top q q' [.elem ty a [] []] F hc hq (by
+    simp only [Schema.types, List.map_cons, List.map_nil, Schema.tyOf, Node.tyOr]
+    rw [Dfa.run_singleton]; exact hm)
+  rw [fromArray_singleton_elem] at h1
+  refine ⟨h1.1, ty, a, [], [], fappend_elem_last F ty a [] [], rfl, ⟨⟨⟨0, 0, ?_, rfl, ?_⟩, ?_⟩, trivial⟩⟩
+  · unfold cohStart
+    rw [if_neg (by omega)]
+  · unfold cohKids
+    rw [if_neg (by omega)]
+    rfl
+  · intro h0
+    omega
+
+/-! ### `close_frontier_node`, `open_frontier_node` on the whole state -/
+
+theorem closeFrontierNode_coh (S : Schema) (D g : Nat) (base : List FItem) (fr : List FItem) (placed : List Node)
+    (r : List FItem × List Node) (h : closeFrontierNode S fr placed = .ok r) (hc : Coh S D g base 0 fr placed) :
+    r.1 = fr.dropLast ∧ Coh S D g base 0 r.1 r.2 := by
+  unfold closeFrontierNode at h
+  split at h
+  · simp [throw, throwThe, MonadExceptOf.throw] at h
+  · rename_i open_ hl
+    obtain ⟨pre, rfl⟩ := List.getLast?_eq_some_iff.mp hl
+    have hpre := Coh_prefix S D g base open_ pre 0 placed hc
+    obtain ⟨q, _, h⟩ := FM.bind_ok h
+    obtain ⟨add, _, h⟩ := FM.bind_ok h
+    cases add with
+    | none =>
+      have := pure_ok h
+      subst this
+      exact ⟨rfl, by simpa using hpre⟩
+    | some a =>
+      simp only at h
+      split at h
+      · have := pure_ok h
+        subst this
+        exact ⟨rfl, by simpa using hpre⟩
+      · obtain ⟨p, hp, h⟩ := FM.bind_ok h
+        have := pure_ok h
+        subst this
+        refine ⟨rfl, ?_⟩
+        simp only [List.dropLast_concat] at hp ⊢
+        exact Coh_deep S D g base a pre 0 _ placed p hp (Nat.le_refl _) hpre
+
+theorem closeMany_coh (S : Schema) (D g : Nat) (base : List FItem) : ∀ (n : Nat) (fr : List FItem)
+    (placed : List Node) (r : List FItem × List Node), closeMany S n fr placed = .ok r →
+    Coh S D g base 0 fr placed → Coh S D g base 0 r.1 r.2
+  | 0, fr, placed, r, h, hc => by
+    have := pure_ok h
+    subst this; exact hc
+  | n + 1, fr, placed, r, h, hc => by
+    unfold closeMany at h
+    obtain ⟨x, hx, h⟩ := FM.bind_ok h
+    exact closeMany_coh S D g base n x.1 x.2 r h (closeFrontierNode_coh S D g base fr placed x hx hc).2
+
+/-- `open_frontier_node(type)` (no attributes, no content) above the ghost level -/
+theorem openFrontierNode_coh {S : Schema} (hts : TextStableP S) (D g : Nat) (base : List FItem) (pre : List FItem)
+    (top : FItem) (placed : List Node) (ty : TypeId) (q q' : Nat) (hq : top.st = some q)
+    (hm : (S.dfa top.ty).matchType q ty = some q') (hleaf : (S.nodeType ty).isLeaf = false)
+    (hg : g < pre.length + 1) (r : List FItem × List Node)
+    (h : openFrontierNode S (pre ++ [top]) placed ty none [] = .ok r)
+    (hc : Coh S D g base 0 (pre ++ [top]) placed) :
+    r.1 = pre ++ [⟨top.ty, some q'⟩, ⟨ty, some 0⟩] ∧ Coh S D g base 0 r.1 r.2 := by
+  unfold openFrontierNode at h
+  simp only [List.length_append, List.length_singleton, Nat.add_sub_cancel] at h
+  obtain ⟨top0, hgi, h⟩ := FM.bind_ok h
+  have ht0 : top0 = top := by
+    have := getItem_ok hgi
+    simpa using this.symm
+  subst ht0
+  obtain ⟨q0, hgs, h⟩ := FM.bind_ok h
+  have hq0 : q0 = q := by
+    have := getSt_ok hgs
+    rw [hq] at this
+    simpa using this.symm
+  subst hq0
+  obtain ⟨node, hnode, h⟩ := FM.bind_ok h
+  obtain ⟨p, hp, h⟩ := FM.bind_ok h
+  have := pure_ok h
+  subst this
+  have hn : ∃ a, node = .elem ty a [] [] := by
+    unfold Schema.createNodeO at hnode
+    split at hnode
+    · simp [throw, throwThe, MonadExceptOf.throw] at hnode
+    · split at hnode
+      · rename_i aa _
+        have := pure_ok hnode
+        subst this
+        refine ⟨aa, ?_⟩
+        unfold Schema.mkNodeO
+        simp only [hleaf, Bool.false_eq_true, if_false]
+      · simp [throw, throwThe, MonadExceptOf.throw] at hnode
+  obtain ⟨a, rfl⟩ := hn
+  have hfr : (pre ++ [top0]).set pre.length ⟨top0.ty, (S.dfa top0.ty).matchType q0 ty⟩ ++ [⟨ty, some 0⟩] =
+      pre ++ [⟨top0.ty, some q'⟩, ⟨ty, some 0⟩] := by
+    rw [hm]
+    simp
+  refine ⟨hfr, ?_⟩
+  simp only [hfr]
+  exact Coh_top S D g base [.elem ty a [] []] top0 [⟨top0.ty, some q'⟩, ⟨ty, some 0⟩]
+    (by intro x hx; simp at hx; rw [← hx]) (by simp) pre 0 placed p hp hc (by
+      intro F hF
+      exact Coh_base_open hts D g base (0 + pre.length) top0 q0 q' ty a F hF hq hm (by omega))
+
 end PM
